@@ -693,6 +693,9 @@ def run(ctx):
         ("psd", [[0, -1], [1, 0]], [-1, -1], None),
         ("psd", [[0, 0, -1], [0, 0, 1], [1, -1, 0]], [-1, 1, -2], None),
         ("gen", [[0, 0], [1, -1]], [0, -1], None),      # solvable, but no feasible complementary basis
+        # witness of the known finding `psd_ray_rounded_tie_at_solution` (thorough sweep seed 3): PSD M
+        # (symmetric part v v', v = (0,1,-1,1)); status 2 after 5 pivots although z = (21,0,42,38) solves the LCP
+        ("psd", [[0, 1, 2, -2], [-1, 1, -4, 5], [-2, 2, 1, 0], [2, -3, -2, 1]], [-8, -1, 0, 4], [1.5, 1., 2.5, 2.]),
     ]
     # bimatrix game of the test suite (n = 15)
     A = np.array([[3, 3], [2, 5], [0, 6]])
@@ -942,8 +945,30 @@ def run(ctx):
                 ctx.count("ray:%s:%s:%s" % (cls, "solvable" if solv else "unsolvable", how))
                 if cls == "psd" and solv:
                     if dflt_run:
-                        ctx.spec_fail("psd_ray_but_solvable",
-                                      "status 2 on a PSD matrix although a solution exists", replay)
+                        # Narrow known finding `psd_ray_rounded_tie_at_solution`: ONLY when (a) the exact Rat model
+                        # on the same line succeeds and met a tie / near-tie on its path, and (b) the z returned by
+                        # the code already satisfies the LCP within the slack of the success clause (the artificial
+                        # variable is basic at level ~0: a tie involving it was missed because the tied ratios,
+                        # rounded, differ by more than the absolute tol_ratio_diff).  Everything else keeps the
+                        # generic key.
+                        key = "psd_ray_but_solvable"
+                        what = "status 2 on a PSD matrix although a solution exists"
+                        if np.all(np.isfinite(z)):
+                            mz_, mw_, comp_ = lcp_residuals(Mq, qq, [Fraction(float(v)) for v in z])
+                            eps_ = Fraction(ENV) * Fraction(scale)
+                            z_solves = not (mz_ < -eps_ or mw_ < -eps_ or comp_ > eps_ * max(1, n))
+                            if z_solves:
+                                mo = ctx.driver(["C11 lemke %s tolpiv=%s toldiff=%s" % (base, tp_bits, td_bits)])[0]
+                                a_ = parse_out(mo) if mo.startswith("success=") else {}
+                                if a_.get("status") == "0" and (int(a_.get("ties", "0")) >= 1
+                                                                or int(a_.get("near", "0")) >= 1):
+                                    key = "psd_ray_rounded_tie_at_solution"
+                                    what = ("status 2 on a PSD matrix, but the returned z=%s already solves the LCP "
+                                            "(artificial variable basic at level 0): an exact tie of the ratio test "
+                                            "(exact run: status 0, ties=%s near=%s) was not recognised in double "
+                                            "arithmetic (absolute tol_ratio_diff)" % (
+                                                z.tolist(), a_.get("ties"), a_.get("near")))
+                        ctx.spec_fail(key, what, replay)
                     else:
                         ctx.count("nondefault-tol:psd-ray-but-solvable")
             if status == 0 and cls == "psd":
